@@ -377,16 +377,15 @@ impl Monitor for C06 {
         if !ev.out.ok {
             return out;
         }
-        // instruction by instruction: pre/post of a multi-instruction tx are only exact for single-ix txs
-        if ev.tx.ixs.len() != 1 {
-            return out;
-        }
-        let ix = &ev.tx.ixs[0];
-        let io = &ev.out.ix_outcomes[0];
-        let Some(c) = wpix::decode(ix) else { return out };
+        for view in ev.ix_views() {
+        let ev_pre = view.pre;
+        let ev_post = view.post;
+        let ix = view.ix;
+        let io = view.out;
+        let Some(c) = wpix::decode(ix) else { continue };
         match c.name() {
             "swap" | "swap_v2" | "two_hop_swap" | "two_hop_swap_v2" => {
-                for o in observe(ix, io, ev.pre, ev.post) {
+                for o in observe(ix, io, ev_pre, ev_post) {
                     let sums = check_trace(&o, ev.idx, &mut out, "C06");
                     cov.eval(abstract_state_key(&o));
                     if o.trace.steps.iter().any(|s| s.liquidity == 0) {
@@ -441,9 +440,9 @@ impl Monitor for C06 {
                             out.push(viol("C06", "trader_lamports", ev.idx, format!("the trader's lamports changed by {}", b.authority_lamports_delta)));
                         }
                         // nothing else of the trader changed: every other token account owned by the authority
-                        for (k, a) in ev.pre.accts.iter() {
+                        for (k, a) in ev_pre.accts.iter() {
                             if (a.owner == crate::ix::tok() || a.owner == crate::ix::tok22()) && a.data.len() >= 165 && a.data[32..64] == b.authority.to_bytes() {
-                                let d = bal_delta(ev.pre, ev.post, k);
+                                let d = bal_delta(ev_pre, ev_post, k);
                                 let is_io = *k == c.a("token_owner_account_a") || *k == c.a("token_owner_account_b");
                                 if d != 0 && !is_io {
                                     out.push(viol("C06", "other_trader_account", ev.idx, format!("token account {} of the trader changed by {}", k, d)));
@@ -460,17 +459,17 @@ impl Monitor for C06 {
             }
             "collect_protocol_fees" | "collect_protocol_fees_v2" => {
                 let wk = c.a("whirlpool");
-                if let (Some(pre), Some(post)) = (ev.pre.data(&wk).and_then(decode::pool), ev.post.data(&wk).and_then(decode::pool)) {
-                    let plain = !has_transfer_fee(ev.pre, &pre.mint_a) && !has_transfer_fee(ev.pre, &pre.mint_b);
+                if let (Some(pre), Some(post)) = (ev_pre.data(&wk).and_then(decode::pool), ev_post.data(&wk).and_then(decode::pool)) {
+                    let plain = !has_transfer_fee(ev_pre, &pre.mint_a) && !has_transfer_fee(ev_pre, &pre.mint_b);
                     cov.eval(format!("{}|owedA={}|owedB={}", c.name(), pre.protocol_fee_owed_a > 0, pre.protocol_fee_owed_b > 0));
                     if post.protocol_fee_owed_a != 0 || post.protocol_fee_owed_b != 0 {
                         out.push(viol("C06", "protocol_fee_not_reset", ev.idx, format!("protocol fees owed after collection: {} / {}", post.protocol_fee_owed_a, post.protocol_fee_owed_b)));
                     }
                     if plain {
-                        let da = bal_delta(ev.pre, ev.post, &c.a("token_destination_a"));
-                        let db = bal_delta(ev.pre, ev.post, &c.a("token_destination_b"));
-                        let va = bal_delta(ev.pre, ev.post, &pre.vault_a);
-                        let vb = bal_delta(ev.pre, ev.post, &pre.vault_b);
+                        let da = bal_delta(ev_pre, ev_post, &c.a("token_destination_a"));
+                        let db = bal_delta(ev_pre, ev_post, &c.a("token_destination_b"));
+                        let va = bal_delta(ev_pre, ev_post, &pre.vault_a);
+                        let vb = bal_delta(ev_pre, ev_post, &pre.vault_b);
                         // destination may be the vault itself (aliasing) - then deltas cancel
                         let alias_a = c.a("token_destination_a") == pre.vault_a;
                         let alias_b = c.a("token_destination_b") == pre.vault_b;
@@ -483,6 +482,7 @@ impl Monitor for C06 {
                 }
             }
             _ => {}
+        }
         }
         let _ = BigUint::zero().to_u64();
         out
@@ -501,20 +501,15 @@ impl Monitor for C03 {
     }
     fn on_landed(&mut self, ev: &Landed, cov: &mut Coverage) -> Vec<Violation> {
         let mut out = Vec::new();
-        if ev.tx.ixs.len() != 1 {
-            return out;
-        }
-        let ix = &ev.tx.ixs[0];
-        let Some(c) = wpix::decode(ix) else { return out };
+        for view in ev.ix_views() {
+        let ix = view.ix;
+        let Some(c) = wpix::decode(ix) else { continue };
         if !matches!(c.name(), "swap" | "swap_v2") {
-            return out;
+            continue;
         }
         let a = wpix::swap_args(&c);
-        if !ev.out.ok {
-            return out;
-        }
-        let io = &ev.out.ix_outcomes[0];
-        for o in observe(ix, io, ev.pre, ev.post) {
+        let io = view.out;
+        for o in observe(ix, io, view.pre, view.post) {
             let Some(b) = &o.single else { continue };
             let paid = (-b.trader_in_delta).max(0) as u128;
             let got = b.trader_out_delta.max(0) as u128;
@@ -583,7 +578,7 @@ impl Monitor for C03 {
                     }
                     let mut ix2 = ix.clone();
                     ix2.data[16..24].copy_from_slice(&thr.to_le_bytes());
-                    let mut fork = ev.pre.clone();
+                    let mut fork = view.pre.clone();
                     let r = crate::rt::exec_tx(&mut fork, &crate::rt::Tx { ixs: vec![ix2] }, &|_| crate::rt::ExecOpts::default());
                     results.push(Some((r.ok, r.custom())));
                 }
@@ -605,6 +600,7 @@ impl Monitor for C03 {
             if out.is_empty() && paid > 0 && got > 0 {
                 cov.sample(json!({"ix": c.name(), "a_to_b": a.a_to_b, "exact_in": a.is_input, "amount": a.amount, "threshold": a.threshold, "limit": a.limit.to_string(), "paid": paid.to_string(), "received": got.to_string(), "price_before": o.pre.sqrt_price.to_string(), "price_after": o.post.sqrt_price.to_string()}));
             }
+        }
         }
         out
     }
